@@ -196,6 +196,19 @@ def replayStreams (seqs : List (Nat × Nat)) (ops : List (String × Nat × Strea
           if s'.panicked then some t else go ((st, s') :: states.filter (·.1 != st)) rest
   go [] ops
 
+/-- finalize notifies the input (`icm`) before it releases the stream (`scm`): the first `scm` token of an
+event whose finalization asked for the notification (`fin:o:3`) but whose `icm` has not been seen yet -/
+def releaseOrder (trace : List String) : Option String :=
+  let rec go (pending : List String) : List String → Option String
+    | [] => none
+    | t :: ts =>
+      match t.splitOn ":" with
+      | ["fin", o, f] => if f = "3" ∨ f = "2" then go (o :: pending) ts else go pending ts
+      | ["icm", o] => go (pending.filter (· != o)) ts
+      | ["scm", o, _] => if pending.contains o then some t else go pending ts
+      | _ => go pending ts
+  go [] trace
+
 def handle (cmd : String) (args impl : List String) : Option (String × String) :=
   match args with
   | _procs :: _cap :: _lowmem :: _bcount :: _workers :: _retry :: dq :: _fp :: _dfp :: chain :: _jit :: _nsrc :: nev :: rest => do
@@ -228,6 +241,9 @@ def handle (cmd : String) (args impl : List String) : Option (String × String) 
               match replayStreams (seqsOf trace) sops with
               | some t => s!"reject-stream {t}"
               | none =>
+                match releaseOrder trace with
+                | some t => s!"reject-release {t}"
+                | none =>
                 -- M3: the processor's own logic predicts what it does with the events it took
                 match DrvProc.compare chain n rest trace (seqsOf trace) with
                 | some d => d
